@@ -34,9 +34,12 @@ pub struct C08 {
 
 impl C08 {
     pub fn new() -> Self {
-        // three documents; the one reconciled is the middle one in byte order
+        // three real documents; the one reconciled is one whose id ends in 0xFF when there is one
+        // (its byte-order successor then needs a carry), moved to index 1
         let mut keys = Keys::new(3, 3);
-        keys.namespaces.sort_by_key(|n| *n.id().as_bytes());
+        if let Some(i) = keys.namespaces.iter().position(|n| n.id().as_bytes()[31] == 0xFF) {
+            keys.namespaces.swap(1, i);
+        }
         C08 { keys }
     }
 }
@@ -49,13 +52,40 @@ fn lines_of_step(reply: Option<&MMsg>, inserted: &[(iroh_docs::SignedEntry, Cont
     )
 }
 
+/// the ids just below and just above `id` in byte order (none at the ends of the id space)
+fn neighbours(id: &[u8; 32]) -> [Option<[u8; 32]>; 2] {
+    let mut pred = *id;
+    let mut has_pred = false;
+    for b in pred.iter_mut().rev() {
+        if *b == 0 {
+            *b = 0xFF;
+        } else {
+            *b -= 1;
+            has_pred = true;
+            break;
+        }
+    }
+    let mut succ = *id;
+    let mut has_succ = false;
+    for b in succ.iter_mut().rev() {
+        if *b == 0xFF {
+            *b = 0;
+        } else {
+            *b += 1;
+            has_succ = true;
+            break;
+        }
+    }
+    [if has_pred { Some(pred) } else { None }, if has_succ { Some(succ) } else { None }]
+}
+
 impl Property for C08 {
     type Op = Op;
     fn id(&self) -> &'static str {
         "C08"
     }
     fn rule(&self) -> String {
-        "pairs of entry sets (0-10 entries each, 3 authors, edge keys, ties, deletion markers; one side empty in a sixth of the cases) in stores that also hold 0-5 entries of two neighbouring documents (smaller and greater id), (split, max set) from {2,3,4,5}x{0,1,2,4}; 0-6 range probes per case with endpoints drawn from stored ids, their neighbours and absent ids in all three shapes (x<y, x>y, x=y) with empty and bogus fingerprints; then a full session; each on memory redb, file redb, the in-crate BTreeMap backend and both Lean models; non-trivial = at least one probe answered with entries or a session of >= 3 messages".into()
+        "pairs of entry sets (0-10 entries each, 3 authors, edge keys, ties, deletion markers; one side empty in a sixth of the cases) in stores that also hold 0-5 entries of other documents (two with real keys and the two ids adjacent in byte order to the document's own, which ends in 0xFF), (split, max set) from {2,3,4,5}x{0,1,2,4}; 0-6 range probes per case with endpoints drawn from stored ids, their neighbours and absent ids in all three shapes (x<y, x>y, x=y) with empty and bogus fingerprints; then a full session; each on memory redb, file redb, the in-crate BTreeMap backend and both Lean models; non-trivial = at least one probe answered with entries or a session of >= 3 messages".into()
     }
     fn corpus(&self) -> Vec<(String, Vec<Op>)> {
         let p = |side: u8, a: usize, k: &[u8], c: Option<usize>, ts: u64| Op::Put { side, a, key: k.to_vec(), c, ts };
@@ -81,7 +111,7 @@ impl Property for C08 {
         let mut keys_used: Vec<(usize, Vec<u8>)> = vec![];
         // other documents in the same stores
         for _ in 0..rng.range(0, 5) {
-            ops.push(Op::Foreign { side: rng.below(3) as u8, which: rng.below(2) as u8, a: rng.below(3), key: gen_key(rng), c: if rng.chance(1, 4) { None } else { Some(rng.below(3)) }, ts: *rng.pick(&crate::c02::TIMES) });
+            ops.push(Op::Foreign { side: rng.below(3) as u8, which: rng.below(4) as u8, a: rng.below(3), key: gen_key(rng), c: if rng.chance(1, 4) { None } else { Some(rng.below(3)) }, ts: *rng.pick(&crate::c02::TIMES) });
         }
         let empty_a = rng.chance(1, 6);
         for (side, n) in [(0u8, if empty_a { 0 } else { rng.range(0, max) }), (1, rng.range(0, max)), (2, if empty_a { 0 } else { rng.range(0, 4) })] {
@@ -138,7 +168,8 @@ impl Property for C08 {
             s.store.new_replica(ns.clone())?;
             s.store.close_replica(nsid);
         }
-        // the neighbouring documents exist in every store (and in the table model)
+        // the neighbouring documents exist in every store (and in the table model): two real ones
+        // and the two ids next to the document in byte order (hand-picked, populated through H6)
         for w in [0usize, 2] {
             let other = &self.keys.namespaces[w];
             for s in mem.iter_mut().chain(fil.iter_mut()) {
@@ -147,6 +178,15 @@ impl Property for C08 {
             }
             for sid in [1, 2] {
                 lines.push(Line::model(format!("tns {sid} {} 1 {}", hex(other.id().as_bytes()), hex(&other.to_bytes())), "inserted"));
+            }
+        }
+        let raw_ns = neighbours(nsid.as_bytes());
+        for raw in raw_ns.iter().flatten() {
+            for s in mem.iter_mut().chain(fil.iter_mut()) {
+                s.store.import_namespace(iroh_docs::sync::Capability::Read(iroh_docs::NamespaceId::from(raw)))?;
+            }
+            for sid in [1, 2] {
+                lines.push(Line::model(format!("tns {sid} {} 2 {}", hex(raw), hex(raw)), "inserted"));
             }
         }
         iroh_docs::verif::set_thread_sync_config(Some((max_set, split)));
@@ -175,6 +215,25 @@ impl Property for C08 {
                                 lines.push(Line::oracle(format!("put {} {}", i + 11, honest_fp_tok(&e)), outs[0].clone()));
                                 let same = outs[0] == outs[1] && outs[0] == m;
                                 lines.push(Line::oracle("sconst backends-agree", if same { "backends-agree".to_string() } else { format!("differ mem={} file={} map={}", outs[0], outs[1], m) }));
+                            }
+                        }
+                    }
+                    Op::Foreign { side, which, a, key, c, ts } if *which >= 2 => {
+                        // a hand-picked neighbour id: predecessor (2) or successor (3) in byte order
+                        let Some(raw) = raw_ns[(*which - 2) as usize % 2] else { continue };
+                        let e = crate::storeops::raw_entry(&self.keys, &raw, self.keys.authors[*a].id().as_bytes(), key, *c, *ts);
+                        for i in 0..2usize {
+                            if *side == 2 || *side as usize == i {
+                                let mut outs = vec![];
+                                for s in [&mut mem[i], &mut fil[i]] {
+                                    outs.push(match s.store.verif_put_unvalidated(e.clone())? {
+                                        Some(k) => format!("inserted {k}"),
+                                        None => "notinserted".to_string(),
+                                    });
+                                }
+                                lines.push(Line::model(format!("tput {} {}", i + 1, with_fp(stored_tok(&e), &e)), outs[0].clone()));
+                                let same = outs[0] == outs[1];
+                                lines.push(Line::oracle("sconst backends-agree", if same { "backends-agree".to_string() } else { format!("differ mem={} file={}", outs[0], outs[1]) }));
                             }
                         }
                     }
